@@ -31,7 +31,7 @@ COMPONENTS = {'real': ['compiled enspara.info_theory.libinfo (unmodified generat
 ASSUMPTIONS = ['at least one frame per trajectory (zero frames is outside the statement)',
                'state counts >= 2 per feature for channel-capacity normalisation (the routine asserts it)',
                'floating tolerances for the algebraic laws: 1e-9 absolute / relative']
-REACH_EXPECTED = ['state_counts_in_a_narrow_integer_type', 'pooled_trajectories_serial_variant', 'weighted_many_states_narrow_type', 'views_sharing_first_element', 'long_trajectory', 'team_ge_2', 'one_thread_per_feature', 'different_feature_counts', 'different_state_counts',
+REACH_EXPECTED = ['ids_beyond_the_signed_range_of_the_other_side', 'invalid_negative_beside_unsigned', 'state_counts_in_a_narrow_integer_type', 'pooled_trajectories_serial_variant', 'weighted_many_states_narrow_type', 'views_sharing_first_element', 'long_trajectory', 'team_ge_2', 'one_thread_per_feature', 'different_feature_counts', 'different_state_counts',
                   'mixed_dtypes', 'self_counts', 'invalid_negative', 'invalid_too_large', 'invalid_length', 'invalid_mixed_dtypes', 'pooled_trajectories',
                   'weighted_uniform', 'relabel_invariance', 'permutation_invariance', 'schedule_pair_compared']
 INTS = ('int8', 'int16', 'int32', 'int64', 'uint8', 'uint16', 'uint32', 'uint64')
@@ -143,6 +143,14 @@ def valid(ctx, t):
     nb = na if t.flag(1, 2) else t.irange(2, 5)
     dta = t.choice(INTS)
     dtb = dta if t.flag(2, 3) else t.choice(INTS)
+    if not self_mode and not long_traj and t.flag(1, 12):
+        # one side unsigned with ids its signed counterpart of the same width cannot hold: harmonising the two element types
+        # must not wrap them
+        if t.flag():
+            dta, dtb, na = 'uint8', 'int8', t.irange(129, 200)
+        else:
+            dta, dtb, nb = 'int8', 'uint8', t.irange(129, 200)
+        ctx.hit('ids_beyond_the_signed_range_of_the_other_side')
     A = gen_features(t, nfr, fa, na, dta)
     if self_mode:
         B, fb, nb, dtb = A, fa, na, dta
@@ -375,6 +383,18 @@ def invalid(ctx, t):
     B = gen_features(t, nfr, fb, nb, dts[1])
     info = np.iinfo(dt)
     nside = na if side == 0 else nb
+    if what == 'negative' and dt == 'int8' and t.flag(1, 3):
+        # the other side is the unsigned type of the same width and the declared range is the whole of it: a negative id is
+        # still a negative id (narrowed to the other side's type it would read 255 and pass)
+        dts[1 - side] = 'uint8'
+        if side == 0:
+            B = B.astype('uint8')
+            na = 256
+        else:
+            A = A.astype('uint8')
+            nb = 256
+        nside = 256
+        ctx.hit('invalid_negative_beside_unsigned')
     if what == 'negative':
         tgt = A if side == 0 else B
         # just below zero, or a valid id minus 2**8 / 2**16 (it would wrap into range if the array were narrowed)
